@@ -315,6 +315,7 @@ class Form(BaseForm):
 
         # Internal variables for caching form argument data
         self._coefficients = None
+        self._geometric_quantities = None
         self._coefficient_numbering = None
         self._constant_numbering = None
         self._terminal_numbering = None
